@@ -22,6 +22,7 @@
  * Author(s):   Steve Kieffer   <http://skieffer.info>
 */
 
+#include <algorithm>
 #include <memory>
 #include <vector>
 
@@ -114,7 +115,9 @@ PeeledNode_SP dialect::identifyRootNode(const Graph &graph) {
 
 NodeBuckets::NodeBuckets(Graph &graph) :
     m_graph(graph),
-    m_maxDegree(graph.getMaxDegree()),
+    // There must always be a bucket of leaves (degree 1) for takeLeaves(), even when the
+    // Graph has no Edges at all (e.g. a single Node), so we never use a max degree below 1.
+    m_maxDegree(std::max(graph.getMaxDegree(), 1u)),
     m_buckets(m_maxDegree + 1)
 {
     // Fill the buckets.
